@@ -36,7 +36,9 @@ func main() {
 				arg = ""
 			}
 			runTrace(n, arg)
-			runHetero(n, arg)
+			if heteroEnabled {
+				runHetero(n, arg)
+			}
 			coef := make([]uint64, 2*n)
 			for i := range coef {
 				coef[i] = rng.Uint64() | 1
@@ -99,6 +101,9 @@ func runNil(n, arg int, bits uint64) {
 				rec.Violate(fmt.Sprintf("C20/Pipe%d/calls", n), fmt.Sprintf("any-chain: f_%d applied %d times", i+1, k), c)
 			}
 		}
+	}
+	if !heteroEnabled {
+		return
 	}
 	// --- int -> error -> int -> ...: nil errors in the middle and as the final result
 	calls2 := make([]int, n)
